@@ -182,7 +182,7 @@ theorem StInv.declare {s : St (Ext K)} (h : StInv Src s) {name : String} (ty : V
   · intro ρ hd
     have hd' := domSat_append.mp hd
     have hbox := h.box ρ hd'.1
-    intro n b hl
+    intro n b hsn hl
     simp only [declState, lookupB_declBounds] at hl
     by_cases hn : n = name
     · rw [if_pos hn] at hl
@@ -190,7 +190,9 @@ theorem StInv.declare {s : St (Ext K)} (h : StInv Src s) {name : String} (ty : V
       subst hl; subst hn
       exact encl_of_inDomain (hd'.2 ({ name := n, ty := ty, usage := 1 } : DomVar (Ext K)) (by simp) (by simp))
     · rw [if_neg hn] at hl
-      exact hbox n b hl
+      rcases inScope_declState.mp hsn with hs | hs
+      · exact hbox n b hs hl
+      · exact absurd hs hn
   · intro c hc x hx
     exact inScope_declState.mpr (Or.inl (h.qscoped c hc x hx))
   · intro c hc
